@@ -309,6 +309,21 @@ func runC16(r *vk.Run) {
 				c.Count("millisecond_values", 1)
 			}
 		}
+		// more digits than milliseconds: the text still denotes base + fraction; whatever resolution the tool
+		// keeps (it works in milliseconds), the instant it resolves to lies within a millisecond of that one --
+		// also when the fraction rounds up into the next second
+		for _, frac := range []string{"9995", "9996", "99999", "999999999", "9994", "99949", "4995", "0004", "0005", "0009", "12345", "123456789", "000000001", "5000", "99951", "999500001"} {
+			txt := fmt.Sprintf("%d.%s", base, frac)
+			fn, _ := strconv.ParseInt((frac + "000000000")[:9], 10, 64)
+			exact := time.Unix(base, fn)
+			got, err := Cmd.Timestamp(txt, time.Unix(1, 0))
+			c.Eval(1)
+			if d := got.Sub(exact); err != nil || d > time.Millisecond+2*time.Microsecond || d < -(time.Millisecond+2*time.Microsecond) {
+				c.Fail("", fmt.Sprintf("fractional seconds %q resolved to %s, which is not within a millisecond of the instant written, %s (err=%v)", txt, got.UTC().Format(time.RFC3339Nano), exact.UTC().Format(time.RFC3339Nano), err), map[string]any{"text": txt})
+				return
+			}
+			c.Count("long_fraction_values", 1)
+		}
 		c.Nontrivial(fmt.Sprintf("ms%d", c.Idx))
 	})
 
